@@ -17,6 +17,139 @@ package kgo
 //@   ensures r == seqwrap(sequence, increment)
 //@   ensures 0 <= r
 
+// ---- C28: partitioners return an index in [0, n) for every n >= 1, whatever earlier calls left behind ----
+
+//@ func (r *roundRobinTopicPartitioner) Partition(rec *Record, n int) (p int)
+//@   prop C28
+//@   nopanic
+//@   requires n >= 1 && r.on >= 0          // r.on >= 0: representation invariant, established by new() and kept below
+//@   modifies r.on
+//@   ensures 0 <= p && p < n
+//@   ensures r.on >= 0
+//@   ensures p == ite(old(r.on) >= n, 0, old(r.on)) && r.on == p + 1      // strict rotation, restart after a shrink
+
+//@ func (p *stickyTopicPartitioner) Partition(rec *Record, n int) (r int)
+//@   prop C28
+//@   nopanic
+//@   requires n >= 1 && p.onPart >= -1       // representation invariant (newStickyTopicPartitioner, OnNewBatch, this function)
+//@   modifies p.onPart
+//@   ensures 0 <= r && r < n && p.onPart == r
+//@   ensures (old(p.onPart) != -1 && old(p.onPart) < n && old(p.onPart) >= 0) ==> r == old(p.onPart)      // pinned until a new batch
+
+//@ func (p *stickyTopicPartitioner) OnNewBatch()
+//@   prop C28
+//@   nopanic
+//@   modifies p.lastPart, p.onPart
+//@   ensures p.onPart == -1 && p.lastPart == old(p.onPart)
+
+// The iterator handed to backup-aware partitioners yields indices below iterBound (the partition count the
+// producer set it up with). For the client's own iterator that is len(mapping) (see leastBackupInput.Next).
+//@ spec iterBound(i TopicBackupIter) int
+//@ func (i TopicBackupIter) Next() (idx int, backup int64)
+//@   modifies object(i)
+//@   ensures 0 <= idx && idx < iterBound(i)
+
+//@ func (i *leastBackupInput) Next() (idx int, backup int64)
+//@   prop C28
+//@   nopanic
+//@   requires len(i.mapping) >= 1
+//@   ensures idx == old(len(i.mapping)) - 1 && 0 <= idx && len(i.mapping) == old(len(i.mapping)) - 1
+
+//@ func (i *leastBackupInput) Rem() (n int)
+//@   prop C28
+//@   nopanic
+//@   pure
+//@   ensures n == len(i.mapping)
+
+//@ func (p *leastBackupTopicPartitioner) PartitionByBackup(rec *Record, n int, backup TopicBackupIter) (r int)
+//@   prop C28
+//@   nopanic
+//@   requires n >= 1 && iterBound(backup) <= n && p.onPart >= -1 && !sameobject(backup, p)
+//@   loop 0 invariant npicked >= 0 && npicked <= old(n) - n && n <= old(n) && (npicked == 0 ==> leastBackup == 9223372036854775807)
+//@   loop 0 invariant n < old(n) ==> (0 <= p.onPart && p.onPart < old(n))
+//@   loop 0 invariant n == old(n) ==> p.onPart == old(p.onPart) || (0 <= p.onPart && p.onPart < old(n))
+//@   ensures 0 <= r && r < n
+
+// Uniform-bytes (KIP-794), non-adaptive configuration: whatever the byte budget and the random draws, an unkeyed
+// record goes to a partition in [0, n) -- also when n shrank below the pinned partition. The adaptive branch
+// (backlog-weighted pick through the calc slab) is not decided: its quantified slab invariant does not discharge.
+//@ func (p *uniformBytesTopicPartitioner) PartitionByBackup(r *Record, n int, backup TopicBackupIter) (res int)
+//@   prop C28
+//@   nopanic
+//@   requires n >= 1 && !p.u.adaptive
+//@   ensures !(old(p.u.keys) && old(r.Key) != nil) ==> 0 <= res && res < n
+
+// Key hashing. $call0 is the value returned by the user's hash function for the key.
+// Kafka: Utils.toPositive(Utils.murmur2(keyBytes)) % numPartitions  (Java int arithmetic)
+//@ func KafkaHasher$1(key []byte, n int) (p int)
+//@   mode bv
+//@   prop C28
+//@   nopanic
+//@   requires n >= 1
+//@   ensures 0 <= p && p < n
+//@   ensures p == int($call0 & 0x7fffffff) % n
+
+// Sarama: partition := int32(hash) % numPartitions; if partition < 0 { partition = -partition }
+//@ func SaramaCompatHasher$1(key []byte, n int) (p int)
+//@   mode bv
+//@   prop C28
+//@   nopanic
+//@   requires n >= 1 && n <= 2147483647
+//@   ensures 0 <= p && p < n
+//@   ensures int32(p) == ite(int32($call0) % int32(n) < 0, -(int32($call0) % int32(n)), int32($call0) % int32(n))
+
+//@ func (p *stickyKeyTopicPartitioner) Partition(r *Record, n int) (res int)
+//@   prop C28
+//@   nopanic
+//@   requires n >= 1 && p.stickyTopicPartitioner.onPart >= -1
+//@   ensures old(r.Key) == nil ==> 0 <= res && res < n
+//@   ensures old(r.Key) != nil ==> res == $call0     // keyed records go where the hasher says, nothing else
+
+// murmur2, transcribed from Apache Kafka's Utils.murmur2 (Java int arithmetic == uint32 bit patterns):
+//   h = seed ^ length; per 4-byte little-endian block k: k *= m; k ^= k >>> 24; k *= m; h *= m; h ^= k;
+//   tail (length % 4 bytes, at index length & ~3): h ^= b[2] << 16; h ^= b[1] << 8; h ^= b[0]; h *= m;
+//   h ^= h >>> 13; h *= m; h ^= h >>> 15
+//@ spec mmmix(k uint32) uint32 = ((k * 0x5bd1e995) ^ ((k * 0x5bd1e995) >> 24)) * 0x5bd1e995
+//@ spec mmk(b []byte) uint32 = mmmix(uint32(b[0]) + uint32(b[1])<<8 + uint32(b[2])<<16 + uint32(b[3])<<24)
+//@ spec mmtail(b []byte, h uint32) uint32 =
+//@      ite(len(b) == 3, (h ^ uint32(b[2])<<16 ^ uint32(b[1])<<8 ^ uint32(b[0])) * 0x5bd1e995,
+//@      ite(len(b) == 2, (h ^ uint32(b[1])<<8 ^ uint32(b[0])) * 0x5bd1e995,
+//@      ite(len(b) == 1, (h ^ uint32(b[0])) * 0x5bd1e995, h)))
+//@ spec mmf2(x uint32) uint32 = x ^ (x >> 15)
+//@ spec mmfin(h uint32) uint32 = mmf2((h ^ (h >> 13)) * 0x5bd1e995)
+// mmrest(b, h): finish the hash from running state h with bytes b still to consume (blocks front to back,
+// then the 0..3 byte tail, then the finaliser) -- the Java loop, written as a recursion on the remaining bytes.
+//@ spec rec mmrest(b []byte, h uint32) uint32 = ite(len(b) >= 4, mmrest(b[4:], (h * 0x5bd1e995) ^ mmk(b)), mmfin(mmtail(b, h)))
+//@ spec mm2(b []byte) uint32 = mmrest(b, 0x9747b28c ^ uint32(len(b)))
+
+//@ func murmur2(b []byte) (r uint32)
+//@   mode bv
+//@   prop C28
+//@   nopanic
+//@   pure
+//@   abstract mul      // products are compared structurally; the test-vector lemmas below use real multiplication
+//@   loop 0 invariant mmrest(b, h) == mm2(old(b))
+//@   loop 0 unfold mmrest(b, h)
+//@   ensures r == mm2(b)
+
+// The specification itself is checked against the test vectors of Kafka's UtilsTest.testMurmur2.
+//@ lemma murmur2_vector_21: forall b []byte :: (len(b) == 2 && b[0] == '2' && b[1] == '1') ==> int32(mm2(b)) == -973932308
+//@   mode bv
+//@   prop C28
+//@ lemma murmur2_vector_abc: forall b []byte :: (len(b) == 3 && b[0] == 'a' && b[1] == 'b' && b[2] == 'c') ==> int32(mm2(b)) == 479470107
+//@   mode bv
+//@   prop C28
+//@ lemma murmur2_vector_long: forall b []byte :: (len(b) == 24 && b[0] == 'a' && b[1] == '-' && b[2] == 'l' && b[3] == 'i' && b[4] == 't' && b[5] == 't'
+//@      && b[6] == 'l' && b[7] == 'e' && b[8] == '-' && b[9] == 'b' && b[10] == 'i' && b[11] == 't' && b[12] == '-' && b[13] == 'l' && b[14] == 'o'
+//@      && b[15] == 'n' && b[16] == 'g' && b[17] == '-' && b[18] == 's' && b[19] == 't' && b[20] == 'r' && b[21] == 'i' && b[22] == 'n' && b[23] == 'g')
+//@      ==> int32(mm2(b)) == -985981536
+//@   mode bv
+//@   prop C28
+//@ lemma murmur2_vector_foobar: forall b []byte :: (len(b) == 6 && b[0] == 'f' && b[1] == 'o' && b[2] == 'o' && b[3] == 'b' && b[4] == 'a' && b[5] == 'r')
+//@      ==> int32(mm2(b)) == -790332482
+//@   mode bv
+//@   prop C28
+
 // ---- C06 / C16: fetch parsing kernels ----
 
 // The record decoder of the (published) kmsg module: only its frame is used here.
